@@ -451,6 +451,11 @@ def run_rotation(case):
                                 "field": "{name}-{record._generated:%Y%m%dT%H}-{record.s}.records.gz"}[tkind])
         hours = {"h1": 1, "h2": 2, "h3": 3}
         sentinels = []
+        door = case.get("door", "template")
+        if door != "template":
+            # RecordArchiver / the archive:// adapter put the default hourly template under <dir>/YYYY/mm/dd/
+            tmpl = os.path.join(d, "2021", "05", "05", "{name}-{record._generated:%Y%m%dT%H}.records.gz")
+            os.makedirs(os.path.dirname(tmpl))
         if pre:
             p = tmpl.format(name="records", record=type("R", (), {"_generated": real_dt.datetime(2021, 5, 5, hours["h1"], tzinfo=real_dt.timezone.utc)})())
             w = RecordWriter(p)
@@ -465,7 +470,14 @@ def run_rotation(case):
         st.datetime = _FakeDT(real_dt, ticks)
         written = []
         try:
-            w = PathTemplateWriter(tmpl)
+            if door == "archiver":
+                from flow.record.stream import RecordArchiver
+
+                w = RecordArchiver(d)
+            elif door == "archive-uri":
+                w = RecordWriter("archive://" + d)
+            else:
+                w = PathTemplateWriter(tmpl)
             for i, hb in enumerate(seq):
                 ts = "dt(2021,5,5,%d,%d,0,tz=UTC)" % (hours[hb], i)
                 sval = "k%d" % (i % 2)
@@ -480,9 +492,11 @@ def run_rotation(case):
         finally:
             st.datetime = old
         found = []
-        for f in sorted(os.listdir(d)):
+        listing = sorted(os.path.relpath(os.path.join(dp, f), d) for dp, _, fs in os.walk(d) for f in fs)
+        for rel in listing:
+            f = os.path.basename(rel)
             try:
-                rd = RecordReader(os.path.join(d, f))
+                rd = RecordReader(os.path.join(d, rel))
                 got, exc = drain(rd)
                 rd.close()
                 if exc is not None:
@@ -498,7 +512,7 @@ def run_rotation(case):
             lost = [x for x in want_ids if x not in got_ids]
             dup = sorted({x for x in got_ids if got_ids.count(x) > 1})
             viol.append(("C17:rotation:%s:clock=%s" % ("records-lost" if lost else "records-duplicated", clock), case,
-                         {"lost": lost[:6], "duplicated": dup[:6], "files": sorted(os.listdir(d))}))
+                         {"lost": lost[:6], "duplicated": dup[:6], "files": listing}))
         prefix = dict(written)
         for ident, f in found:
             if ident in prefix and not f.startswith(prefix[ident]):
@@ -551,6 +565,10 @@ def cases(tier, seed):
                 for clock in ("advances", "same-second"):
                     yield {"kind": "rotation", "seq": list(seq), "pre": pre, "clock": clock}
         if k <= 4:
+            for door in ("archiver", "archive-uri"):
+                for seq in itertools.product(["h1", "h2", "h3"], repeat=k):
+                    for pre in (False, True):
+                        yield {"kind": "rotation", "seq": list(seq), "pre": pre, "clock": "advances", "door": door}
             for tk in ("minute", "field"):
                 for seq in itertools.product(["h1", "h2"], repeat=k):
                     yield {"kind": "rotation", "seq": list(seq), "pre": False, "clock": "advances", "template": tk}
